@@ -887,8 +887,12 @@ impl ASN1Type {
     pub fn references_class_by_name(&self) -> bool {
         match self {
             ASN1Type::Choice(c) => c.options.iter().any(|o| o.ty.references_class_by_name()),
-            ASN1Type::Sequence(s) => s.members.iter().any(|m| m.ty.references_class_by_name()),
-            ASN1Type::SequenceOf(so) => so.element_type.references_class_by_name(),
+            ASN1Type::Sequence(s) | ASN1Type::Set(s) => {
+                s.members.iter().any(|m| m.ty.references_class_by_name())
+            }
+            ASN1Type::SequenceOf(so) | ASN1Type::SetOf(so) => {
+                so.element_type.references_class_by_name()
+            }
             ASN1Type::ObjectClassField(ocf) => {
                 matches!(
                     ocf.field_path.last(),
@@ -916,22 +920,40 @@ impl ASN1Type {
                     .collect(),
                 constraints: c.constraints,
             }),
-            ASN1Type::Sequence(s) => ASN1Type::Sequence(SequenceOrSet {
-                extensible: s.extensible,
-                constraints: s.constraints,
-                components_of: s.components_of,
-                members: s
-                    .members
-                    .into_iter()
-                    .map(|mut member| {
-                        member.constraints = vec![];
-                        member.ty = member.ty.resolve_class_reference(tlds);
-                        member
-                    })
-                    .collect(),
-            }),
+            ASN1Type::Sequence(s) => {
+                ASN1Type::Sequence(Self::resolve_class_references_of_members(s, tlds))
+            }
+            ASN1Type::Set(s) => ASN1Type::Set(Self::resolve_class_references_of_members(s, tlds)),
+            ASN1Type::SequenceOf(mut so) => {
+                *so.element_type = so.element_type.resolve_class_reference(tlds);
+                ASN1Type::SequenceOf(so)
+            }
+            ASN1Type::SetOf(mut so) => {
+                *so.element_type = so.element_type.resolve_class_reference(tlds);
+                ASN1Type::SetOf(so)
+            }
             ASN1Type::ObjectClassField(_) => self.reassign_type_for_ref(tlds),
             _ => self,
+        }
+    }
+
+    fn resolve_class_references_of_members(
+        s: SequenceOrSet,
+        tlds: &BTreeMap<String, ToplevelDefinition>,
+    ) -> SequenceOrSet {
+        SequenceOrSet {
+            extensible: s.extensible,
+            constraints: s.constraints,
+            components_of: s.components_of,
+            members: s
+                .members
+                .into_iter()
+                .map(|mut member| {
+                    member.constraints = vec![];
+                    member.ty = member.ty.resolve_class_reference(tlds);
+                    member
+                })
+                .collect(),
         }
     }
 
